@@ -53,9 +53,36 @@ def cfg_strategy():
                    st.sampled_from(COLORS))
 
 
-def cases(prof):
+def twin_regions(spec, k):
+  """two or three regions that agree in everything (styles, timing) but, for k = 1, in tts:textAlign, and content below each:
+  whether they are merged depends on the configuration only (k = 0: always; k = 1: not when text alignment is preserved)"""
+  if k is None or spec["body"] is None or len(spec["regions"]) < 2:
+    return spec
+  r0 = spec["regions"][0]
+  r0["anims"] = []
+  aligns = [s.TextAlignType.start, s.TextAlignType.end, s.TextAlignType.center]
+  for i, r in enumerate(spec["regions"][1:3], 1):
+    r["styles"] = dict(r0["styles"])
+    r["anims"] = []
+    r["begin"], r["end"] = r0["begin"], r0["end"]
+    if k == 1:
+      r["styles"]["TextAlign"] = aligns[i]
+  if k == 1:
+    r0["styles"]["TextAlign"] = aligns[0]
+  regs = [r["id"] for r in spec["regions"][:3]]
+  for n in gen_model.walk(spec["body"]):
+    n["region"] = None
+    n["styles"].pop("TextAlign", None)
+    n["anims"] = [a for a in n["anims"] if a[0] != "TextAlign"]
+  for i, d in enumerate(spec["body"]["kids"]):
+    d["region"] = regs[i % len(regs)]
+  return spec
+
+
+def cases(prof, twins=False):
   def strat(tier):
-    return st.builds(lambda spec, cfg: {"spec": spec, "cfg": cfg}, gen_model.docspecs(prof), cfg_strategy())
+    k = st.sampled_from([None, 0, 1, 1]) if twins else st.none()
+    return st.builds(lambda spec, cfg, kk: {"spec": twin_regions(spec, kk), "cfg": cfg}, gen_model.docspecs(prof), cfg_strategy(), k)
   return strat
 
 
@@ -173,7 +200,9 @@ def check(case, res):
     for sn in ref0.snapshot(t):
       for eid, (n, cc) in sn.elements.items():
         if n["kind"] == "p":
-          before_align[(eid, t)] = cc["TextAlign"]
+          # a paragraph presented in several regions (through descendants that reference them) may compute a different
+          # alignment in each: every one of them counts
+          before_align.setdefault((eid, t), []).append(cc["TextAlign"])
   for t in times:
     for sn in ref1.snapshot(t):
       used = set()
@@ -191,7 +220,7 @@ def check(case, res):
           if not cfg["preserve_text_align"] and cc["TextAlign"] is not s.TextAlignType.center:
             res.fail("computed-text-align:not-centered", "p %s at %s computes %r" % (eid, t, cc["TextAlign"]))
           if cfg["preserve_text_align"] and not hiding and (eid, t) in before_align and \
-              before_align[(eid, t)] is not gen_model_unknown() and cc["TextAlign"] != before_align[(eid, t)]:
+              not any(b is gen_model_unknown() for b in before_align[(eid, t)]) and cc["TextAlign"] not in before_align[(eid, t)]:
             res.fail("computed-text-align:not-preserved", "p %s at %s computes %r, before %r" % (eid, t, cc["TextAlign"], before_align[(eid, t)]))
   max_anims = max([len(n["anims"]) for n in nodes if n["kind"] != "text"] or [0])
   res.nontrivial = len(spec["regions"]) >= 2 and merged >= 1 and positioned and max_anims >= 2
@@ -205,7 +234,7 @@ def gen_model_unknown():
 PARTS = {
   "main": Part("main", check, strategy=cases(PROF), n=(800, 48000), shrinker=SHRINK,
                required_labels=("positioned-region", "regions-merged", "no-body", "regions:0")),
-  "no_hiding": Part("no_hiding", check, strategy=cases(NO_HIDING), n=(800, 48000), shrinker=SHRINK, required_labels=("no-hiding",)),
+  "no_hiding": Part("no_hiding", check, strategy=cases(NO_HIDING, True), n=(800, 48000), shrinker=SHRINK, required_labels=("no-hiding",)),
   # nested conflicting region references: content that is never presented becomes visible when the regions are merged (known finding)
   "nested_refs": Part("nested_refs", check, strategy=cases(NO_HIDING_NESTED), n=(240, 8000), shrinker=SHRINK),
 }
